@@ -180,10 +180,16 @@ def _walk_lark_tree(op, *, data_def=None) -> data_algebra.expr_rep.Term:
                         # method invoke
                         var = _r_walk_lark_tree(method_carrier.children[0])
                         op_name = str(method_carrier.children[1])
-                    else:
+                        if op_name.startswith("__"):
+                            raise ValueError(
+                                "special method " + op_name + " not allowed in expression text, use the operator"
+                            )
+                    elif method_carrier.data == "var":
                         # function invoke
                         var = None
                         op_name = str(method_carrier.children[0])
+                    else:
+                        raise ValueError("can only call a function name or a method, not " + str(method_carrier.data))
                 else:
                     if isinstance(method_carrier, str):
                         op_name = method_carrier
